@@ -178,11 +178,23 @@ pub fn gen_rect_operand(r: &mut Rng, g: i64, max_parts: u64) -> Operand {
             rects.push(q);
         }
     }
+    // sometimes the first part is a large frame: a big rectangle with one big hole (room for islands and for the
+    // other operand to sit inside the hole)
+    let frame = r.chance(1, 4) && g >= 7;
+    if frame {
+        let q = Rect { x0: r.below(2) as i64, y0: r.below(2) as i64, x1: g - r.below(2) as i64, y1: g - r.below(2) as i64 };
+        rects.retain(|p| meet(*p, q) <= 1);
+        rects.insert(0, q);
+    }
     let mut o = Operand::new();
-    for q in rects {
+    for (qi, q) in rects.into_iter().enumerate() {
         let mut poly: Poly = vec![rect_ring(q, r)];
         let nh = if q.x1 - q.x0 >= 3 && q.y1 - q.y0 >= 3 { r.below(3) } else { 0 };
         let mut holes: Vec<Rect> = Vec::new();
+        if frame && qi == 0 {
+            let m = 1 + r.below(2) as i64;
+            holes.push(Rect { x0: q.x0 + m, y0: q.y0 + m, x1: q.x1 - m, y1: q.y1 - m });
+        }
         for _ in 0..nh * 4 {
             if holes.len() as u64 >= nh {
                 break;
@@ -196,10 +208,24 @@ pub fn gen_rect_operand(r: &mut Rng, g: i64, max_parts: u64) -> Operand {
                 holes.push(hq);
             }
         }
+        let mut islands: Vec<Rect> = Vec::new();
+        for hq in &holes {
+            // an island of the same operand strictly inside the hole (a separate polygon, possibly with its own hole)
+            if hq.x1 - hq.x0 >= 3 && hq.y1 - hq.y0 >= 3 && r.chance(1, 2) {
+                let w = 1 + r.below((hq.x1 - hq.x0 - 2) as u64) as i64;
+                let h = 1 + r.below((hq.y1 - hq.y0 - 2) as u64) as i64;
+                let x0 = hq.x0 + 1 + r.below((hq.x1 - hq.x0 - 1 - w) as u64) as i64;
+                let y0 = hq.y0 + 1 + r.below((hq.y1 - hq.y0 - 1 - h) as u64) as i64;
+                islands.push(Rect { x0, y0, x1: x0 + w, y1: y0 + h });
+            }
+        }
         for hq in holes {
             poly.push(rect_ring(hq, r));
         }
         o.push(poly);
+        for iq in islands {
+            o.push(vec![rect_ring(iq, r)]);
+        }
     }
     o
 }
@@ -276,6 +302,62 @@ pub fn gen_ortho_operand(r: &mut Rng, g: i64) -> Operand {
         }
     }
     o
+}
+
+/// One octilinear part: an even-coordinate rectangle whose corners are cut at 45 degrees by even amounts
+/// (up to a whole side: trapezoids, triangles). All edge directions are multiples of 45 degrees and all
+/// coordinates even, so every intersection point between such edges is a lattice point.
+fn chamfered(r: &mut Rng, g: i64) -> Ring {
+    let w = 2 * (1 + r.below(6) as i64);
+    let h = 2 * (1 + r.below(6) as i64);
+    let x0 = 2 * r.below((g / 2 + 2) as u64) as i64;
+    let y0 = 2 * r.below((g / 2 + 2) as u64) as i64;
+    let m = w.min(h);
+    let mut c = [0i64; 4]; // cuts at (x0,y0) (x1,y0) (x1,y1) (x0,y1)
+    for ci in c.iter_mut() {
+        *ci = if r.chance(1, 2) { 0 } else { 2 * r.below((m / 2 + 1) as u64) as i64 };
+    }
+    // neighbouring cuts must fit on their common side
+    if c[0] + c[1] > w { c[1] = w - c[0]; }
+    if c[3] + c[2] > w { c[2] = w - c[3]; }
+    if c[1] + c[2] > h { c[2] = (h - c[1]).min(c[2]); }
+    if c[0] + c[3] > h { c[3] = (h - c[0]).min(c[3]); }
+    if c[3] + c[2] > w { c[2] = w - c[3]; }
+    let (x1, y1) = (x0 + w, y0 + h);
+    let raw = [
+        [x0 + c[0], y0], [x1 - c[1], y0], [x1, y0 + c[1]], [x1, y1 - c[2]],
+        [x1 - c[2], y1], [x0 + c[3], y1], [x0, y1 - c[3]], [x0, y0 + c[0]],
+    ];
+    let mut ring: Ring = Vec::new();
+    for p in raw {
+        let q = [p[0] as f64, p[1] as f64];
+        if ring.last() != Some(&q) {
+            ring.push(q);
+        }
+    }
+    if ring.len() > 1 && ring[0] == ring[ring.len() - 1] {
+        ring.pop();
+    }
+    if r.chance(1, 2) {
+        ring.reverse();
+    }
+    let k = r.below(ring.len().max(1) as u64) as usize;
+    ring.rotate_left(k);
+    let f = ring[0];
+    ring.push(f);
+    ring
+}
+
+/// 1..=3 octilinear parts, valid as an operand (simple rings, parts apart — decided exactly).
+pub fn gen_octi_operand(r: &mut Rng, g: i64) -> Operand {
+    for _ in 0..30 {
+        let n = 1 + r.below(3) as usize;
+        let o: Operand = (0..n).map(|_| vec![chamfered(r, g)]).collect();
+        if valid_simple_parts(&o) {
+            return o;
+        }
+    }
+    vec![vec![vec![[0.0, 0.0], [4.0, 0.0], [0.0, 4.0], [0.0, 0.0]]]]
 }
 
 /// Small lattice "star" polygons: vertices at integer points around a centre in angular order.
@@ -447,6 +529,12 @@ fn witness_points(os: &[&Operand]) -> (Vec<(f64, f64)>, f64, bool) {
 pub fn region_diff_any(a: &Operand, b: &Operand) -> Option<(f64, f64)> {
     let (pts, _, _) = witness_points(&[a, b]);
     pts.into_iter().find(|(x, y)| contains(a, *x, *y) != contains(b, *x, *y))
+}
+
+/// Region comparison of two results with every ring read by the even-odd rule (ring grouping ignored).
+pub fn region_diff_evenodd(a: &Operand, b: &Operand) -> Option<(f64, f64)> {
+    let (pts, _, _) = witness_points(&[a, b]);
+    pts.into_iter().find(|(x, y)| contains_evenodd(a, *x, *y) != contains_evenodd(b, *x, *y))
 }
 
 /// Small executable reference model of the Boolean operation itself: membership of witness points in the
